@@ -1,8 +1,41 @@
-(* C10 — pins (theorems in Proofs/C10Main.v to follow). *)
-From Coq Require Import String Ascii ZArith List Bool.
-From RV Require Import Base.Val Gen.ParserV2 Model.Fit.
+(* C10 — fitting to PDB limits, on the model of the algorithm the source spells out (see the known finding for what the
+   source currently does on mmCIF tables that need fitting).  Property theorems only. *)
+From Coq Require Import String Ascii ZArith List Bool Arith.
+From RV Require Import Base.Val Base.PyStr Gen.ParserV2 Model.Fit Proofs.C10Main.
 Import ListNotations.
 
 Lemma C10_pin_limits : max_pdb_serial = 99999%Z /\ max_pdb_residue = 9999%Z /\ length chain_alphabet = 62.
 Proof. repeat split; reflexivity. Qed.
 Print Assumptions C10_pin_limits.
+
+Theorem C10_identity_when_fits : forall is_pdb t, fits is_pdb t = true -> fit is_pdb t = Unchanged.
+Proof. exact fits_unchanged. Qed.
+Print Assumptions C10_identity_when_fits.
+
+(* atoms keep their order and every field fitting does not touch *)
+Theorem C10_frame : forall is_pdb t t', fit is_pdb t = Fitted t' -> map f_id t' = map f_id t /\ length t' = length t.
+Proof. exact fitted_frame. Qed.
+Print Assumptions C10_frame.
+
+(* chains are renamed one-to-one onto single characters of the 62-symbol alphabet *)
+Theorem C10_chain_injective : forall t c1 c2,
+    length (unique_chains t) <= length chain_alphabet ->
+    In c1 (map f_chain t) -> In c2 (map f_chain t) ->
+    new_chain (unique_chains t) c1 = new_chain (unique_chains t) c2 -> c1 = c2.
+Proof. exact chain_renaming_injective. Qed.
+Print Assumptions C10_chain_injective.
+Theorem C10_chain_one_char : forall chains c, length (new_chain chains c) <= 1.
+Proof. exact new_chain_one_char. Qed.
+Print Assumptions C10_chain_one_char.
+
+Definition mk (s : Z) (c : string) (n : Z) (ic : string) : frow :=
+  {| f_serial := s; f_chain := L c; f_resseq := n; f_icode := L ic; f_id := Z.to_nat s |}.
+
+(* non-vacuity: two long chain names and a large residue number are fitted; 63 chains are refused *)
+Example C10_nonvacuous :
+  let t := [mk 1 "AA" 10001 ""; mk 2 "AA" 10001 ""; mk 3 "BBB" 5 "A"; mk 4 "BBB" 5 "B"] in
+  match fit false t with
+  | Fitted t' => map (fun r => (f_serial r, f_chain r, f_resseq r)) t' = [(1%Z, L "A", 1%Z); (2%Z, L "A", 1%Z); (4%Z, L "B", 1%Z); (5%Z, L "B", 2%Z)]
+  | _ => False
+  end.
+Proof. vm_compute. reflexivity. Qed.
